@@ -85,3 +85,17 @@ contract(F, "OptionalCoercerProvider._is_optional", props=["C14"], params={"self
                "exactly-one-other": "implies(returned and truthy(result), len(norm.args) == 2)",
                "is-union": "implies(returned and truthy(result), py_eq(norm.origin, Union))"},
          scenarios=_opt_scenarios, cover=["returned"])
+
+
+# ---- structural coercers always COPY: the converted object shares no container with the source (C20, C13, C14) -----------
+COPY_PARAMS = {"mediator": "sym", "request": "sym", "norm_src": "sym", "norm_dst": "sym"}
+COPY_METHODS = {"mandatory_provide": "VAL_OR_RAISE", "append_loc": "VAL"}
+for _cls, _closure in (("IterableCoercerProvider", "iterable_coercer"), ("DictCoercerProvider", "dict_coercer")):
+    contract(F, f"{_cls}._provide_coercer_norm_types", name=f"{F}:{_cls}._provide_coercer_norm_types[copying]",
+             props=["C20", "C13", "C14"],
+             params={"self": ("constf", lambda m, _cls=_cls: getattr(m, _cls)()), **COPY_PARAMS}, methods=COPY_METHODS,
+             post={
+                 # never the as-is stub: a container is rebuilt element by element even when the elements pass as is
+                 "copying-coercer": f"implies(returned, is_closure(result, '{_closure}'))",
+             },
+             cover=["returned", "raised"])
